@@ -1669,11 +1669,18 @@ class UTPM(Ring, RawAlgorithmsMixIn):
         if out is None:
             out = self.zeros_like()
 
-        if s <= 0:
-            out.data[:s,...] = self.data[-s:,...]
+        D = self.data.shape[0]
+        # (the right hand side is copied first: out may be self)
+        if s == 0:
+            out.data[...] = self.data.copy()
+
+        elif s < 0:
+            out.data[:s,...] = self.data[-s:,...].copy()
+            out.data[s:,...] = 0
 
         else:
-            out.data[s:,...] = self.data[:-s,...]
+            out.data[s:,...] = self.data[:-s,...].copy()
+            out.data[:s,...] = 0
 
         return out
 
